@@ -573,10 +573,14 @@ def gen_session(rng, n_calls):
         make({'kind': 'regexp', 'tree': genrx.tree(rng, rng.randint(0, 6), list(sigma))})
     for _ in range(rng.randint(1, 2)):
         make({'kind': 'words', 'words': sorted({_words(rng, sigma, 5) for _ in range(rng.randint(0, 6))})})
-    if rng.random() < 0.3 and len(sigma) == 2:
-        # legal but unusual: an alphabet that is not uniquely decodable ({x, y, xy})
-        d3 = _simple_dfa(rng, [sigma[0], sigma[1], 'c'], n_max=3)
-        ren = {'c': sigma[0] + sigma[1]}
+    if rng.random() < 0.6:
+        # legal but unusual: an alphabet that is not uniquely decodable ({x, y, xy} or {x, xx})
+        if len(sigma) == 2:
+            d3 = _simple_dfa(rng, [sigma[0], sigma[1], 'c'], n_max=4)
+            ren = {'c': sigma[0] + sigma[1]}
+        else:
+            d3 = _simple_dfa(rng, [sigma[0], 'c'], n_max=4)
+            ren = {'c': sigma[0] * 2}
         d3['Sigma'] = [ren.get(x, x) for x in d3['Sigma']]
         d3['delta'] = [[q, ren.get(x, x), t] for q, x, t in d3['delta']]
         make(d3)
